@@ -267,6 +267,28 @@ func init() {
 			}
 			return nil
 		},
+		harnessPkg + ".LetTimePass": func(in *Interp, fn *ssa.Function, a []Value, _ ssa.CallInstruction) Value {
+			// every armed timer fires, in arming order, until none is pending
+			for n := 0; n < 64; n++ {
+				fired := false
+				for _, t := range in.timers {
+					if t.pending {
+						t.pending = false
+						fired = true
+						if t.f != nil {
+							in.callValue(t.f, nil, nil)
+						} else if t.ch != nil && len(t.ch.buf) < t.ch.cap {
+							t.ch.buf = append(t.ch.buf, zeroTime)
+						}
+						break
+					}
+				}
+				if !fired {
+					break
+				}
+			}
+			return nil
+		},
 		harnessPkg + ".Setenv": func(in *Interp, fn *ssa.Function, a []Value, _ ssa.CallInstruction) Value {
 			in.env[argStr(a[0])] = argStr(a[1])
 			return nil
